@@ -14,7 +14,7 @@ import (
 func genC09() *rapid.Generator[Case] {
 	return rapid.Custom(func(t *rapid.T) Case {
 		p := mixedParams{Modes: []int{0, 0, 1, 2}, Segs: []int64{120, 200, 333, 1024}, Buckets: []string{"b", "c", "", "bb"},
-			MinB: 1, MaxB: 3, MaxSteps: 14, MaxOps: 4, ReopenPct: 12, MergePct: 6, Structs: true, ReadsInTx: true, Fill: true}
+			MinB: 1, MaxB: 3, MaxSteps: 14, MaxOps: 4, ReopenPct: 12, MergePct: 6, Structs: true, ReadsInTx: true, Fill: true, FaultPct: 10}
 		c := genMixedCase(p).Draw(t, "hist")
 		// reads of buckets that were never written, through every read API
 		ghost := S("ghost")
@@ -37,8 +37,22 @@ func genC09() *rapid.Generator[Case] {
 
 func runC09(c Case, st *Stats) error {
 	sparse := c.Cfg.Mode == 2
-	if sparse {
-		// Merge is not supported in sparse mode; the call fails cleanly and is kept in the history
+	if sparse && Known("sparse-index-files-not-crash-consistent") {
+		// Merge is not supported in sparse mode; the call fails cleanly and is kept in the history.
+		// Known finding: the sparse index files are written non-atomically, so a failed write of one of them (like a
+		// crash there, cf. C12) leaves an empty file on which Open fails: no injected commit failures in sparse mode
+		stripped := false
+		steps := append([]Step(nil), c.Steps...)
+		for i := range steps {
+			if steps[i].Fault != nil {
+				steps[i].Fault = nil
+				stripped = true
+			}
+		}
+		if stripped {
+			c.Steps = steps
+			st.Exclude("sparse-index-files-not-crash-consistent")
+		}
 	}
 	rc, h, rec, err := record(c, nil)
 	if rec != nil {
